@@ -290,6 +290,7 @@ func checkC01(c *Ctx) {
 	c01Once(c)
 	c01OneAnswer(c)
 	c01FreshBuffer(c)
+	c03QueueAnswered(c)
 	c05Pending(c)
 }
 
@@ -464,6 +465,34 @@ func c01OneAnswer(c *Ctx) {
 					continue
 				}
 				if _, _, isField := ir.LoadedField(st.Chan); !isField {
+					continue
+				}
+				// the frame is a parameter: an enqueue helper. Judge every caller that hands it a response frame and
+				// ignores whether it was queued.
+				if p, ok := st.Send.(*ssa.Parameter); ok {
+					idx := -1
+					for i, q := range fn.Params {
+						if q == p {
+							idx = i
+						}
+					}
+					for _, e := range ir.Callers(c.G, fn) {
+						if e.Site == nil || !c.P.IsLib(e.Caller.Func) || idx < 0 || idx >= len(e.Site.Common().Args) {
+							continue
+						}
+						if !frameIsResponse(e.Site.Common().Args[idx], 0) {
+							continue
+						}
+						used := false
+						if v := e.Site.Value(); v != nil && v.Referrers() != nil && len(*v.Referrers()) > 0 {
+							used = true
+						}
+						if !used {
+							nDrop++
+							c.R.Violate("R-one-answer", "response frame may be dropped in "+fname(e.Caller.Func), c.Pos(e.Site.Pos()),
+								sprintf("%s hands the response to %s, which enqueues it with a non-blocking send (a `default` arm), and ignores the outcome: when the session's queue is full the answer is dropped while the connection stays up, and the call never completes", fname(e.Caller.Func), fname(fn)))
+						}
+					}
 					continue
 				}
 				// is the frame a response? it derives from json.Marshal of a JSONRPCResponse / JSONRPCError
